@@ -80,7 +80,7 @@ def own_range(arr):
     return (float(v.min()), float(v.max()))
 
 
-def mirror_range(k, start, leaves, leaf_hdr, rule="coded"):
+def mirror_range(k, start, leaves, leaf_hdr, rule="fixed"):
     """Range.range_spec: dict pos -> (min, max) for every tile file of the pyramid
     (leaves included); leaves: pos -> (mode, array); leaf_hdr: pos -> (min|None, max|None)"""
     files = C2.mirror_pyramid("fits", k, start, leaves, rule)
@@ -279,7 +279,7 @@ def run_one(V, base, cfg, seedinfo):
         return 0, False
     obs_hdr = scan_headers(base, start)
     obs_present = set(obs_hdr)
-    files, hd = mirror_range(TILE, start, stored, leaf_hdr, "coded")
+    files, hd = mirror_range(TILE, start, stored, leaf_hdr, "fixed")
     if any(np.any(np.asarray(t[1]) < 0) for t in stored.values() if t[0] in ("I16", "I32")):
         # cards do not depend on the integer update rule (finding C02-1 changes pixels, not cards,
         # as long as every child carries cards) -- presence is the same as well
@@ -501,7 +501,7 @@ def run(ctx, V):
     terms = []
     n_nontriv_small = 0
     for c in small:
-        files, hd = mirror_range(c["k"], c["start"], c["leaves"], c["hdr"], "coded")
+        files, hd = mirror_range(c["k"], c["start"], c["leaves"], c["hdr"], "fixed")
         present = set(files) | set(c["leaves"])
         terms.append(g_small(c, hd, present))
         if files and c["kind"] == "own" and 0 < len(c["leaves"]) < 4 ** c["start"]:
